@@ -133,4 +133,18 @@ CHECKS = {
   'note': TB,
   'technique': 'Coq history theorem over a region memory model with premises from translator alias analysis + snapshot/overwrite/churn harness',
  },
+ 'C11': {
+  'text': ("Proof (Coq): the options and scratch fields of the pooled encoder context as a state machine whose ingredients are read from the source on every run "
+           "(what initOption, each entry point, each option function, RuntimeContext.Init and the indent entry assign; which functions read the fields that survive "
+           "between calls). Theorem: for EVERY call (entry point, context or none, indent strings or none, any list of options) and ANY two states earlier histories "
+           "may have left in the pooled context, the interpreter observes the same flag word and the same value of every field it reads; the two leaks the unrepaired "
+           "code had (stale DOT/debug writer, stale indent prefix as in a conditional assignment) are refutation witnesses. Decoder entry points are shown to assign "
+           "flags and buffer before use. Observed: a table of ~530 distinct calls over the whole public API (13 values incl. failing/panicking/invalid marshalers, "
+           "16 documents incl. syntax and type errors, all option sets, shared Path/FieldQuery/Encoder/Decoder handles); the cold oracle of each call is its result as "
+           "the first call of a fresh process (one child process per call); histories of 300 (thorough 400) random calls, each started in its own fresh process so that "
+           "first-use orders differ, compare every result with the cold one; a mismatch is minimised to a two-call history replayed in a fresh process. Partial: type-cache "
+           "state (covered by C14/C10 theorems) and decoder-side pooled state are observed rather than modelled field by field."),
+  'note': TB,
+  'technique': 'Coq leftover-independence theorem over translated option/context assignments + cold-process oracle vs random call histories',
+ },
 }
